@@ -162,28 +162,94 @@ Section Points.
     - eapply R_vaddr_peek; eauto.
   Qed.
 
-  Lemma ap_native_good n s p : state_closed s -> In p (ap_native n s) -> ap_good F p.
+  Lemma to_array_ins_ok n : forall l i, Forall (pair_ok n) l -> Forall (pair_ok n) (to_array_ins i l).
   Proof.
-    intros Hs. unfold ap_native.
-    assert (G : forall k others, (forall x, In x others -> In x (vm_roots s)) ->
-              In p match speek s k with
-                   | VObj a => match hget (st_heap s) a with Some (OTable _) => init2 s [] (a :: others) [] | _ => [] end
-                   | _ => [] end -> ap_good F p).
-    { intros k others Ho. destruct (speek s k) as [| | |a] eqn:Ek; try nil_case.
-      destruct (hget (st_heap s) a) as [[]|]; try nil_case. init2_tac.
-      split; [exact Hs|]. split; [constructor|]. intros _ x Hx. unfold ap_roots. cbn [ap_state ap_guards ap_uses] in *.
-      apply R_root. destruct Hx as [<-|Hx]; [eapply speek_root; eauto|apply Ho; exact Hx]. }
-    destruct n; try nil_case; apply G; try (intros x []);
-      intros x Hx; apply in_vaddr in Hx; eapply speek_root; eauto.
+    induction l as [|[k v] r IH]; intros i Hl; cbn [to_array_ins]; [constructor|].
+    inversion Hl as [|? ? [_ Hv] Hr]; subst. constructor; [split; [exact I|exact Hv]|apply IH; exact Hr].
   Qed.
 
-  Lemma ap_4_good ip s p : state_closed s -> In p (ap_4 P ip s) -> ap_good F p.
+  Lemma fill_points_good eq s2 src out others : state_closed s2 -> aok (hl s2) out ->
+    (forall x, In x (src :: others) -> exists k, speek s2 k = VObj x) ->
+    forall ins t p, table_ok (hl s2) t -> Forall (pair_ok (hl s2)) ins ->
+    In p (fill_points eq s2 src out others t ins) -> ap_good F p.
+  Proof.
+    intros Hs Ho Hr. induction ins as [|[k v] r IH]; intros t p Ht Hi Hin; cbn [fill_points] in Hin; [contradiction|].
+    inversion Hi as [|? ? [Hk Hv] Hi']; subst. cbn [fst snd] in Hk, Hv.
+    apply in_app_or in Hin. destruct Hin as [Hin|Hin].
+    - destruct (map_find eq k (tmap t)) as [[|]|]; try contradiction. destruct Hin as [<-|[]].
+      split; [apply closed_set_table; assumption|]. cbn [ap_state ap_guards ap_uses ap_assumed]. unfold ap_roots.
+      cbn [ap_state ap_guards]. split; [repeat constructor; rewrite hl_set_table; exact Ho|].
+      intros Ha x Hx.
+      assert (Hroot : forall y, In y (src :: others) -> reach (vm_abs F (set_table s2 out t))
+                                  (vm_roots (set_table s2 out t) ++ [out]) y).
+      { intros y Hy. destruct (Hr y Hy) as [j Hj]. apply R_root. apply (speek_root (set_table s2 out t) j). exact Hj. }
+      destruct Hx as [<-|[<-|Hx]].
+      + apply Hroot. left. reflexivity.
+      + apply R_guard. left. reflexivity.
+      + apply in_app_or in Hx. destruct Hx as [Hx|Hx]; [apply Hroot; right; exact Hx|apply Ha; exact Hx].
+    - destruct (tinsert eq t k v) as [t'|] eqn:Et; [|contradiction].
+      eapply IH; [eapply tinsert_ok; [exact Ht|exact Hk|exact Hv|exact Et]|exact Hi'|exact Hin].
+  Qed.
+
+  Lemma ap_native_good n s p : state_closed s -> In p (ap_native F n s) -> ap_good F p.
+  Proof.
+    intros Hs. unfold ap_native.
+    assert (G : forall (snap : bool) (k : nat) (others : list N), (forall x, In x others -> exists j, speek s j = VObj x) ->
+              In p match speek s k with
+                   | VObj a =>
+                       match hget (st_heap s) a with
+                       | Some (OTable t) =>
+                           init2 s [] (a :: others) [] ++
+                           (let '(s2, out) := salloc s (OTable (mkTable [] [])) in
+                            let eq2 := veq0 F (st_heap s2) in
+                            if snap then
+                              match titer (veq0 F (st_heap s)) t with
+                              | Some l => fill_points eq2 s2 a out others (mkTable [] []) l
+                              | None => []
+                              end
+                            else
+                              match titer eq2 t with
+                              | Some l => fill_points eq2 s2 a out others (mkTable [] []) (to_array_ins 0 l)
+                              | None => []
+                              end)
+                       | _ => []
+                       end
+                   | _ => [] end -> ap_good F p).
+    { intros snap k others Ho. destruct (speek s k) as [| | |a] eqn:Ek; try nil_case.
+      destruct (hget (st_heap s) a) as [[t| | | | |]|] eqn:Eh; try nil_case.
+      assert (Hall : forall x, In x (a :: others) -> exists j, speek s j = VObj x).
+      { intros x [<-|Hx]; [exists k; exact Ek|apply Ho; exact Hx]. }
+      intros Hin. apply in_app_or in Hin. destruct Hin as [Hin|Hin].
+      - eapply Forall_init2; [exact Hin|].
+        split; [exact Hs|]. split; [constructor|]. intros _ x Hx. unfold ap_roots. cbn [ap_state ap_guards ap_uses] in *.
+        apply R_root. destruct (Hall x Hx) as [j Hj]. eapply speek_root; exact Hj.
+      - destruct (salloc s (OTable (mkTable [] []))) as [s2 out] eqn:Ea.
+        destruct (salloc_closed _ _ _ _ Ea Hs eq_refl) as [Hs2 Hout].
+        destruct (closed_salloc s _ s2 out Ea Hs (flat_obj_ok _ _ (OTable (mkTable [] [])) eq_refl))
+          as (_ & Hhl & _ & _ & Hst & _).
+        assert (Hall2 : forall x, In x (a :: others) -> exists j, speek s2 j = VObj x).
+        { intros x Hx. destruct (Hall x Hx) as [j Hj]. exists j. unfold speek in *. rewrite Hst. exact Hj. }
+        assert (Ht : table_ok (hl s2) t).
+        { eapply table_ok_mono; [|exact (closed_hget _ _ _ Hs Eh)]. lia. }
+        cbv zeta in Hin. destruct snap.
+        + destruct (titer (veq0 F (st_heap s)) t) as [l|] eqn:El; [|contradiction].
+          eapply fill_points_good; [exact Hs2|exact Hout|exact Hall2|apply table_ok_empty| |exact Hin].
+          eapply Forall_pair_mono; [|eapply titer_ok; [exact (closed_hget _ _ _ Hs Eh)|exact El]]. lia.
+        + destruct (titer (veq0 F (st_heap s2)) t) as [l|] eqn:El; [|contradiction].
+          eapply fill_points_good; [exact Hs2|exact Hout|exact Hall2|apply table_ok_empty| |exact Hin].
+          apply to_array_ins_ok. eapply titer_ok; [exact Ht|exact El]. }
+    destruct n; try nil_case;
+      first [ apply (G false 0 []); intros x []
+            | apply (G true 1 (vaddr (speek s 0))); intros x Hx; apply in_vaddr in Hx; exists 0; exact Hx ].
+  Qed.
+
+  Lemma ap_4_good ip s p : state_closed s -> In p (ap_4 F P ip s) -> ap_good F p.
   Proof.
     intros Hs. unfold ap_4. destruct (op_u32 P ip); [|intros []]. destruct (find_native _ _); [|intros []].
     apply ap_native_good. exact Hs.
   Qed.
 
-  Lemma ap_11_good s p : state_closed s -> In p (ap_11 s) -> ap_good F p.
+  Lemma ap_11_good s p : state_closed s -> In p (ap_11 F s) -> ap_good F p.
   Proof.
     intros Hs. unfold ap_11. destruct (spop s) as [s1 fv] eqn:Ep. destruct (spop_c _ _ _ Ep Hs) as (Hs1 & _ & _).
     destruct fv as [| | |a]; try nil_case. destruct (hget (st_heap s1) a) as [[]|]; try nil_case.
